@@ -1227,6 +1227,52 @@ async fn full_transition(
         out.transitions = mark;
         let w = build_full(root, base, hist, vals, out).await?;
         set_clock(T0 + depth as i64 * 1000);
+        // ---- the store fails while the version is being written (injected engine error at every fault point of
+        // the batch that persists the model): the update is refused, so the running instance and the folder stay
+        // as they were; the same version is then applied for real below
+        if tries == 1 {
+            let before = fsnap(&w.peer, &w.ast, &w.rows, out).await?;
+            for point in ["batch.begin", "batch.item", "batch.before_commit"] {
+                w.peer.barrier().await;
+                verif_hooks::arm_fault(point, 1, verif_hooks::FaultMode::Error);
+                out.transitions += 1;
+                let (acc, _e, _) = runtime_update(&w.peer, &text).await;
+                let fired = verif_hooks::faults_fired();
+                verif_hooks::disarm_faults();
+                if fired == 0 {
+                    out.count(&format!("full-runtime:storage-failure:{}:not-reached", point));
+                    if acc {
+                        // applied for real: this instance is used up
+                        break;
+                    }
+                    continue;
+                }
+                out.evaluations += 1;
+                if acc {
+                    out.violation(
+                        format!("full-runtime:storage-failure:{}:version-live-although-not-stored", point),
+                        format!("storing {} ({}) failed at {} but the running instance carries the new version", v.kind, v.pos, point),
+                        rp.clone(),
+                    );
+                }
+                let after = fsnap(&w.peer, &w.ast, &w.rows, out).await?;
+                let d = snap_diff(&before, &after);
+                for comp in &d {
+                    let key = if comp == "memory-model(model-text)" {
+                        format!("full-runtime:refused:{}-changed", comp)
+                    } else {
+                        format!("full-runtime:storage-failure:{}-changed", comp)
+                    };
+                    out.violation(
+                        key,
+                        format!("storing {} ({}) failed at {} (injected engine error): the update is refused but {} changed (model differences: {})", v.kind, v.pos, point, comp, diff_classes(&before.model, &after.model).join("+")),
+                        rp.clone(),
+                    );
+                }
+                out.count(&format!("full-runtime:storage-failure:{}:{}", point, if d.is_empty() { "clean" } else { "changed" }));
+                out.nontrivial(&("full-runtime:storage-failure", point, &v.kind, d.is_empty()));
+            }
+        }
         out.transitions += 1;
         let (acc, e, stored) = runtime_update(&w.peer, &text).await;
         if !acc {
